@@ -49,7 +49,10 @@ def proof_obligations(pid, tier="quick"):
     if "Error" in build_out or not os.path.exists(vo):
         problems.append("coq build failed: " + build_out[-1500:])
     src = open(pf).read()
+    # theorems closed by `exact <lemma>` and aliases `Definition Cxx_name := <lemma>.` (refutation witnesses, non-vacuity): both are
+    # proof obligations whose axioms are printed
     theorems = re.findall(r"^(?:Theorem|Lemma|Corollary)\s+(\w+)", strip_comments(src), re.M)
+    theorems += re.findall(r"^Definition\s+(C\d\d_\w+)\s*:=", strip_comments(src), re.M)
     examples = re.findall(r"^Example\s+(\w+)", strip_comments(src), re.M)
     # pinned statements
     pins = {}
